@@ -303,6 +303,21 @@ func (e *Engine) callContract(st *State, fr *Frame, callee *ssa.Function, c *Con
 		e.obligation(st, "call-pre", key+"."+lab+"@"+pos, g, r.Src)
 		st.Assume(g)
 	}
+	// `opt noblindstore on`: this operation must never overwrite a shared atomic cell blindly; a callee whose contract
+	// (in any variant) needs `opt blindstore` performs such a store
+	if e.rootC != nil && len(e.rootC.Extra["noblindstore"]) > 0 {
+		base := key
+		if i := strings.Index(base, "#"); i >= 0 {
+			base = base[:i]
+		}
+		for _, k2 := range e.cs.Order {
+			c2 := e.cs.Funcs[k2]
+			if c2 != nil && (k2 == base || strings.HasPrefix(k2, base+"#")) && len(c2.Extra["blindstore"]) > 0 {
+				e.obligation(st, "no-blind-store", key+"@"+pos, False, "this operation may not overwrite a shared cell blindly, and "+base+" does (its contract needs `opt blindstore`)")
+				break
+			}
+		}
+	}
 	// termination of direct recursion: the callee's measure (on its arguments) is below this activation's measure at entry
 	if e.rootC != nil && e.rootC == c && len(c.Decr) > 0 && e.rootFr != nil && e.entry != nil {
 		re := &SpecEnv{e: e, st: e.entry, old: e.entry, fr: e.rootFr, vars: e.params, env: e.rootEnv, pkg: e.rootC.Pkg}
